@@ -349,7 +349,13 @@ private:
   typename traits_::template rebind_alloc<bucket> bucket_allocator_;
   // This needs to be atomic, since it can be read and written by multiple
   // threads not necessarily synchronized by a lock.
+#ifdef LIBCUCKOO_VERIF
+  verif::atomic_ev<std::atomic<size_type>, size_type, verif::EV_HP_LOAD,
+                   verif::EV_HP_STORE, verif::EV_HP_STORE>
+      hashpower_;
+#else
   std::atomic<size_type> hashpower_;
+#endif
   // These buckets are protected by striped locks (external to the
   // BucketContainer), which must be obtained before accessing a bucket.
   bucket_pointer buckets_;
